@@ -200,10 +200,16 @@ func attribute(tl gen.Tools, outs []gen.Outcome, probs []gen.Problem) ([]failure
 			}
 			// a name that collides with another name of the same definition cannot fail "on its
 			// own" (legalising the partner removes the collision): it is the root cause
-			for _, n := range names {
-				if strings.HasSuffix(n, "=dup-go-name") {
-					names = []string{n}
-					break
+			// (the same holds for a name that collides with an identifier the templates derive from
+			// another name of the definition, e.g. message CorrectableStreamFoo next to a
+			// correctable stream method returning Foo, when Foo is itself a hostile spelling)
+		pick:
+			for _, cls := range []string{"=dup-go-name", "=RegisterXServer", "=XServer", "=CorrectableStreamX", "=CorrectableX", "=AsyncX", "=InternalX", "=internalX", "=XQF"} {
+				for _, n := range names {
+					if strings.HasSuffix(n, cls) {
+						names = []string{n}
+						break pick
+					}
 				}
 			}
 			sort.Strings(names)
@@ -454,5 +460,61 @@ func TestHistogram(t *testing.T) {
 		for _, k := range ks {
 			fmt.Printf("KEY %s\n    %s\n", k, keys[k])
 		}
+	}
+}
+
+// TestSweep (VERIF_C16_SWEEP=n) enumerates, for n legal generated definitions,
+// every single-name corruption (gen.SweepNames), evaluates them and prints the
+// distinct failure keys with one minimal definition each. A development aid
+// used to list the single-name findings of C16 exhaustively (known_findings.json
+// is never written at run time).
+func TestSweep(t *testing.T) {
+	var n int
+	fmt.Sscanf(os.Getenv("VERIF_C16_SWEEP"), "%d", &n)
+	if n <= 0 {
+		t.Skip("set VERIF_C16_SWEEP=<n>")
+	}
+	tl := gen.DefaultTools()
+	g := rapid.Custom(func(t *rapid.T) gen.Def { return gen.GenDef(t, gen.GenOpts{LegalOnly: true, NoDev: true}) })
+	var defs []gen.Def
+	for i := 0; i < n; i++ {
+		defs = append(defs, gen.SweepNames(g.Example(i+1))...)
+	}
+	fmt.Printf("SWEEP %d definitions\n", len(defs))
+	keys := map[string]string{}
+	count := map[string]int{}
+	for start := 0; start < len(defs); start += 16 {
+		end := start + 16
+		if end > len(defs) {
+			end = len(defs)
+		}
+		outs, err := gen.EvalBatch(tl, defs[start:end], 1)
+		if err != nil {
+			t.Fatal(err)
+		}
+		probs := make([]gen.Problem, len(outs))
+		for i, o := range outs {
+			if o.Invalid == "" {
+				probs[i] = gen.Judge(o)
+			}
+		}
+		fails, err := attribute(tl, outs, probs)
+		if err != nil {
+			t.Fatal(err)
+		}
+		for _, f := range fails {
+			count[f.key]++
+			if _, ok := keys[f.key]; !ok {
+				keys[f.key] = f.msg + " CASE " + gen.DefJSON(f.culprit)
+			}
+		}
+	}
+	var ks []string
+	for k := range keys {
+		ks = append(ks, k)
+	}
+	sort.Strings(ks)
+	for _, k := range ks {
+		fmt.Printf("KEY %s n=%d\n    %s\n", k, count[k], keys[k])
 	}
 }
